@@ -25,6 +25,7 @@ import XsVerif.Lemmas.NsInv
 import XsVerif.Lemmas.NsCollapse
 import XsVerif.Lemmas.NsEncode
 import XsVerif.Lemmas.NsDenote
+import XsVerif.Lemmas.NsEncodeG
 
 set_option linter.unusedSimpArgs false
 
@@ -770,6 +771,71 @@ theorem encode_decode_names_counterexample :
     (encodeDoc .repaired .stacked (fun _ _ => false) (decodeT .repaired .current true .stacked 0 t m0).2 m0).2.map encProj =
       [(0, some ⟨"u1", "a"⟩, [some ⟨"u1", "z"⟩])] ∧
     docNames t = [(0, some ⟨"u1", "a"⟩, [some ⟨"", "z"⟩])] := by
+  refine ⟨by decide, by decide, by decide⟩
+
+
+/-! ### the encoders as they are: the mechanisms of the listed findings behind flags (`encVisitG`) -/
+
+/-- the schema family of the harness: elements a, b declared in every namespace but u4, every declared element
+    declares the unqualified attribute y -/
+def famSchema : EncSchema :=
+  { declared := fun q => q.ns != "u4" && (q.loc == "a" || q.loc == "b"), unq := fun _ l => l == "y" }
+
+/-- **With the F10 mechanism off the encoders of the tree restore exactly the names the data denotes** — for every
+    schema oracle, with and without the own-tag check of JsonML (it never fires, `encoderG_none_refused`); with the
+    F9 mechanism on under the attribute guard of `ReadableG true`, with F9 off for every data tree whose keys denote
+    names at all.  (`encVisitG` with all mechanisms on is the model the real `element_encode` runs are compared
+    with; a difference between the encoded names and the names the data denotes counts as a known finding exactly
+    when that model reproduces it and switching the finding's mechanism off changes the prediction.) -/
+theorem encoderG_reads_data (v : Variant) (fl : EncFlags) (sch : EncSchema) (item : Item) (e0 : Mapper)
+    (hf : fl.f10 = false) (h0 : e0.stack = []) (hd : ItemDistinct item)
+    (hr : ReadableG fl.f9 sch e0.ns.get item) :
+    encProjG (encodeDocG v .stacked fl sch item e0).2 = readItem e0.ns.get item :=
+  encodeG_reads v fl sch item e0 hf h0 hd hr
+
+theorem encoderG_none_refused (v : Variant) (fl : EncFlags) (sch : EncSchema) (item : Item) (e0 : Mapper)
+    (hf : fl.f10 = false) (h0 : e0.stack = []) (hd : ItemDistinct item)
+    (hr : ReadableG fl.f9 sch e0.ns.get item) :
+    ∀ e ∈ (encodeDocG v .stacked fl sch item e0).2, e.dropped = false :=
+  encodeG_none_dropped v fl sch item e0 hf h0 hd hr
+
+/-- `<a xmlns="u1" z="v"><k:w xmlns:k="u4" y="v"/></a>` with F9 and F10 off: `z` (undeclared) and `y` on the
+    wildcard-matched element keep no namespace -/
+example : encProjG (encodeDocG .repaired .stacked { f9 := false, f10 := false, ownTag := true } famSchema
+    (.node 0 (.loc "a") true [("", "u1")] [.loc "z"] [.node 1 (.pre "k" "w") true [("k", "u4")] [.loc "y"] []])
+    ⟨[], [], []⟩).2 =
+    [(0, some ⟨"u1", "a"⟩, [some ⟨"", "z"⟩]), (1, some ⟨"u4", "w"⟩, [some ⟨"", "y"⟩])] := by decide
+
+/-- Finding C17-F10: `<k:b xmlns="u4" xmlns:k="u2"><w><a xmlns=""/></w></k:b>`.  The data denotes `a` in no namespace;
+    with the mechanism of groups.py:1161 on, the child of the wildcard-matched `w` is encoded as `{u4}a` (dict
+    converters) resp. refused by JsonML's own-tag check; with the mechanism off it is `a`. -/
+theorem encoder_f10_counterexample :
+    let item : Item := .node 0 (.pre "k" "b") true [("", "u4"), ("k", "u2")] []
+      [.node 1 (.loc "w") true [] [] [.node 2 (.loc "a") true [("", "")] [] []]]
+    let e0 : Mapper := ⟨[], [], []⟩
+    readItem e0.ns.get item = [(0, some ⟨"u2", "b"⟩, []), (1, some ⟨"u4", "w"⟩, []), (2, some ⟨"", "a"⟩, [])] ∧
+    encProjG (encodeDocG .repaired .stacked { f10 := true } famSchema item e0).2 =
+      [(0, some ⟨"u2", "b"⟩, []), (1, some ⟨"u4", "w"⟩, []), (2, some ⟨"u4", "a"⟩, [])] ∧
+    encProjG (encodeDocG .repaired .stacked { f10 := true, ownTag := true } famSchema item e0).2 =
+      [(0, some ⟨"u2", "b"⟩, []), (1, some ⟨"u4", "w"⟩, [])] ∧
+    encProjG (encodeDocG .repaired .stacked { f10 := false, ownTag := true } famSchema item e0).2 =
+      readItem e0.ns.get item := by
+  refine ⟨by decide, by decide, by decide, by decide⟩
+
+/-- Finding C17-F8: `<a><b xmlns="u1"/><b/></a>` as JsonML data.  `get_namespaces` hands the encoder the default
+    namespace declared by the first CHILD (`e0` binds "" although the root reports no declaration — the hypothesis
+    `hroot` of `encode_decode_names_partial` fails): root and second child are encoded in `u1`; from the initial map
+    that holds only what the root reports the names are those the data denotes. -/
+theorem encoder_f8_counterexample :
+    let item : Item := .node 0 (.loc "a") true [] []
+      [.node 1 (.loc "b") true [("", "u1")] [] [], .node 2 (.loc "b") true [] [] []]
+    let leaked : Mapper := ⟨[("", "u1")], [("u1", "")], []⟩
+    let clean : Mapper := (initMapper .stacked [] (Item.xmlns item)).1
+    encProjG (encodeDocG .repaired .stacked { ownTag := true } famSchema item leaked).2 =
+      [(0, some ⟨"u1", "a"⟩, []), (1, some ⟨"u1", "b"⟩, []), (2, some ⟨"u1", "b"⟩, [])] ∧
+    encProjG (encodeDocG .repaired .stacked { ownTag := true } famSchema item clean).2 =
+      [(0, some ⟨"", "a"⟩, []), (1, some ⟨"u1", "b"⟩, []), (2, some ⟨"", "b"⟩, [])] ∧
+    readItem Scope.empty item = [(0, some ⟨"", "a"⟩, []), (1, some ⟨"u1", "b"⟩, []), (2, some ⟨"", "b"⟩, [])] := by
   refine ⟨by decide, by decide, by decide⟩
 
 end XsVerif.Props.C17
